@@ -46,6 +46,23 @@ theorem code_shape :
     Life.clientMediaCloseStops = true ∧ Life.asyncProcessorCloseJoins = true ∧ Life.rtpReceiverCloseJoins = true ∧
     Life.rtpSenderCloseJoins = true := by decide
 
+/-- **No goroutine of the library blocks on a channel send without a way out** (regenerated from /repo): in
+client_reader.go, server_conn_reader.go, server.go, server_conn.go, server_session.go and client.go every send
+on one of the `ch…` channels of the run loops is a `case` of a `select`; every send of the client reader has
+the `case <-r.terminate:` alternative and every send of the server connection reader the
+`case <-cr.sc.ctx.Done():` alternative — what the model's `readerClose` / `readerExit` steps (the reader can
+always be joined) rest on.  Also: the PLAY handler creates the write queue only when the session is not
+playing yet (a second PLAY must not replace the running writer), destroys it on error under the same
+condition, the session destroys it before `OnSessionClose`, and `Client.doClose` closes the socket also when
+the reader has already gone. -/
+theorem code_shape_channels :
+    Life.clientReaderBareSends = 0 ∧ Life.clientReaderSends = Life.clientReaderSendsWithTerminate ∧
+    Life.serverReaderBareSends = 0 ∧ Life.serverReaderSends = Life.serverReaderSendsWithCtx ∧
+    Life.serverBareSends = 0 ∧ Life.connBareSends = 0 ∧ Life.sessBareSends = 0 ∧ Life.clientBareSends = 0 ∧
+    0 < Life.clientReaderSends ∧ 0 < Life.serverReaderSends ∧
+    Life.playCreatesWriterOnce = true ∧ Life.playDestroysWriterOnError = true ∧
+    Life.sessionDestroysWriterOnClose = true ∧ Life.clientDoCloseClosesSocketAnyway = true := by decide
+
 /-! ## Accepted traces are balanced and ordered -/
 
 /-- **balanced** (every trace the monitor accepts, complete or not):
